@@ -13,6 +13,8 @@ def gen_partial_wordlist(rng):
     nc = rng.randrange(1, 5)
     langs = rng.sample(wlgen.LANGS, nl)
     concepts = rng.sample(wlgen.CONCEPTS, nc)
+    if rng.random() < 0.15:
+        concepts.append(concepts[0] + ' ')          # a label that differs from another one by a trailing blank only: another concept
     morphs = [wlgen.gen_word(rng, maxsyl=1) for _ in range(rng.randrange(3, 9))]
     d = {0: ['doculect', 'concept', 'ipa', 'tokens']}
     idx = rng.choice([1, 3, 50])
